@@ -459,4 +459,34 @@ theorem parse_invalid (r : Radix) (s : List Nat) {c : Nat} (hv : firstBad r s = 
     simp only
     rw [tailLoop_spec, hvt]
 
+/-! ### `std.parseInt` -/
+
+def IsDec (c : Nat) : Prop := 48 ≤ c ∧ c ≤ 57
+
+theorem firstNonDigit_none {cs : List Nat} (h : ∀ c ∈ cs, IsDec c) : firstNonDigit cs = none := by
+  induction cs with
+  | nil => rfl
+  | cons c cs ih =>
+    have hc : 48 ≤ c ∧ c ≤ 57 := h c (by simp)
+    simp only [firstNonDigit]
+    rw [if_pos hc]
+    exact ih (fun x hx => h x (by simp [hx]))
+
+theorem firstNonDigit_split {pre post : List Nat} {c : Nat} (h : ∀ x ∈ pre, IsDec x) (hc : ¬ IsDec c) :
+    firstNonDigit (pre ++ c :: post) = some c := by
+  induction pre with
+  | nil =>
+    simp only [List.nil_append, firstNonDigit]
+    have hc' : ¬ (48 ≤ c ∧ c ≤ 57) := hc
+    rw [if_neg hc']
+  | cons p pre ih =>
+    have hp : 48 ≤ p ∧ p ≤ 57 := h p (by simp)
+    simp only [List.cons_append, firstNonDigit]
+    rw [if_pos hp]
+    exact ih (fun x hx => h x (by simp [hx]))
+
+theorem decValue_eq (cs : List Nat) : decValue cs = valOf 10 (cs.map (· - 48)) := by
+  unfold decValue valOf accVal
+  rw [List.foldl_map]
+
 end Rsj.Codec
